@@ -83,6 +83,13 @@ Record seg := {
 
 Record acache := { a_pts : Z; a_es : bytes; a_src : list frame }.
 
+(* ghost: what the generator does to its store, in order.  In disk mode the store is the directory: files named
+   murmur(path)_<n>.ts, which outlive the generator (see C10HlsDisk.v) *)
+Inductive fev :=
+| FOpen (n : Z)                 (* segmentFile.open of number n *)
+| FWrite (n : Z) (w : wframe)   (* writeFrame *)
+| FDelete (n : Z).              (* segmentFile.delete *)
+
 Record st := {
   seqno : Z;
   cur : option seg;
@@ -93,12 +100,13 @@ Record st := {
   dropped : list seg;                      (* ghost: segments discarded as too short *)
   free : list Z;                           (* segmentPool *)
   nextb : Z;
-  layers : list (Z * list wframe)          (* earlier contents of each buffer, newest first *)
+  layers : list (Z * list wframe);         (* earlier contents of each buffer, newest first *)
+  fevs : list fev                          (* ghost: store events so far *)
 }.
 
 Definition init_free : st :=
   {| seqno := 0; cur := None; cache := None; jbase := 0; jn := 0; pl := []; closed := []; dropped := [];
-     free := []; nextb := 0; layers := [] |}.
+     free := []; nextb := 0; layers := []; fevs := [] |}.
 
 Fixpoint remove_nth {A} (n : nat) (l : list A) : list A :=
   match l, n with
@@ -112,39 +120,44 @@ Definition alloc (c : cfg) (s : st) : Z * st :=
   match nth_error (free s) (c_pick c (free s)) with
   | Some b => (b, {| seqno := seqno s; cur := cur s; cache := cache s; jbase := jbase s; jn := jn s; pl := pl s;
                      closed := closed s; dropped := dropped s;
-                     free := remove_nth (c_pick c (free s)) (free s); nextb := nextb s; layers := layers s |})
+                     free := remove_nth (c_pick c (free s)) (free s); nextb := nextb s; layers := layers s; fevs := fevs s |})
   | None => (nextb s, {| seqno := seqno s; cur := cur s; cache := cache s; jbase := jbase s; jn := jn s; pl := pl s;
                      closed := closed s; dropped := dropped s;
-                     free := free s; nextb := nextb s + 1; layers := layers s |})
+                     free := free s; nextb := nextb s + 1; layers := layers s; fevs := fevs s |})
   end.
 
 (* segmentFile.delete: the buffer goes back to the pool, its bytes stay in the backing array *)
 Definition release (g : seg) (s : st) : st :=
   {| seqno := seqno s; cur := cur s; cache := cache s; jbase := jbase s; jn := jn s; pl := pl s;
      closed := closed s; dropped := dropped s;
-     free := s_buf g :: free s; nextb := nextb s; layers := (s_buf g, s_frames g) :: layers s |}.
+     free := s_buf g :: free s; nextb := nextb s; layers := (s_buf g, s_frames g) :: layers s;
+     fevs := fevs s ++ [FDelete (s_seq g)] |}.
 
 Definition set_cur (o : option seg) (s : st) : st :=
   {| seqno := seqno s; cur := o; cache := cache s; jbase := jbase s; jn := jn s; pl := pl s;
-     closed := closed s; dropped := dropped s; free := free s; nextb := nextb s; layers := layers s |}.
+     closed := closed s; dropped := dropped s; free := free s; nextb := nextb s; layers := layers s; fevs := fevs s |}.
 Definition set_seqno (n : Z) (s : st) : st :=
   {| seqno := n; cur := cur s; cache := cache s; jbase := jbase s; jn := jn s; pl := pl s;
-     closed := closed s; dropped := dropped s; free := free s; nextb := nextb s; layers := layers s |}.
+     closed := closed s; dropped := dropped s; free := free s; nextb := nextb s; layers := layers s; fevs := fevs s |}.
 Definition set_cache (o : option acache) (s : st) : st :=
   {| seqno := seqno s; cur := cur s; cache := o; jbase := jbase s; jn := jn s; pl := pl s;
-     closed := closed s; dropped := dropped s; free := free s; nextb := nextb s; layers := layers s |}.
+     closed := closed s; dropped := dropped s; free := free s; nextb := nextb s; layers := layers s; fevs := fevs s |}.
 Definition set_jit (b n : Z) (s : st) : st :=
   {| seqno := seqno s; cur := cur s; cache := cache s; jbase := b; jn := n; pl := pl s;
-     closed := closed s; dropped := dropped s; free := free s; nextb := nextb s; layers := layers s |}.
+     closed := closed s; dropped := dropped s; free := free s; nextb := nextb s; layers := layers s; fevs := fevs s |}.
 Definition set_pl (l : list seg) (s : st) : st :=
   {| seqno := seqno s; cur := cur s; cache := cache s; jbase := jbase s; jn := jn s; pl := l;
-     closed := closed s; dropped := dropped s; free := free s; nextb := nextb s; layers := layers s |}.
+     closed := closed s; dropped := dropped s; free := free s; nextb := nextb s; layers := layers s; fevs := fevs s |}.
 Definition add_closed (g : seg) (s : st) : st :=
   {| seqno := seqno s; cur := cur s; cache := cache s; jbase := jbase s; jn := jn s; pl := pl s;
-     closed := closed s ++ [g]; dropped := dropped s; free := free s; nextb := nextb s; layers := layers s |}.
+     closed := closed s ++ [g]; dropped := dropped s; free := free s; nextb := nextb s; layers := layers s; fevs := fevs s |}.
+Definition add_fev (e : fev) (s : st) : st :=
+  {| seqno := seqno s; cur := cur s; cache := cache s; jbase := jbase s; jn := jn s; pl := pl s;
+     closed := closed s; dropped := dropped s; free := free s; nextb := nextb s; layers := layers s;
+     fevs := fevs s ++ [e] |}.
 Definition add_dropped (g : seg) (s : st) : st :=
   {| seqno := seqno s; cur := cur s; cache := cache s; jbase := jbase s; jn := jn s; pl := pl s;
-     closed := closed s; dropped := dropped s ++ [g]; free := free s; nextb := nextb s; layers := layers s |}.
+     closed := closed s; dropped := dropped s ++ [g]; free := free s; nextb := nextb s; layers := layers s; fevs := fevs s |}.
 
 (* segmentOpen *)
 Definition segment_open (c : cfg) (start : Z) (hdr by_audio : bool) (s : st) : st :=
@@ -153,8 +166,9 @@ Definition segment_open (c : cfg) (start : Z) (hdr by_audio : bool) (s : st) : s
   | None =>
       let n := seqno s + 1 in
       let '(b, s1) := alloc c s in
-      set_cur (Some {| s_seq := n; s_start := start; s_dur := 0; s_hdr := hdr; s_aud := by_audio;
-                       s_frames := []; s_buf := b |}) (set_seqno n s1)
+      add_fev (FOpen n)
+        (set_cur (Some {| s_seq := n; s_start := start; s_dur := 0; s_hdr := hdr; s_aud := by_audio;
+                          s_frames := []; s_buf := b |}) (set_seqno n s1))
   end.
 
 (* NewSegmentGenerator *)
@@ -168,7 +182,7 @@ Definition seg_write (w : wframe) (g : seg) : seg :=
 
 Definition flush_frame (w : wframe) (s : st) : st :=
   match cur s with
-  | Some g => set_cur (Some (seg_write w g)) s
+  | Some g => add_fev (FWrite (s_seq g) w) (set_cur (Some (seg_write w g)) s)
   | None => s                                           (* nil dereference in Go; unreachable, see cur_open *)
   end.
 
@@ -400,7 +414,11 @@ Inductive op :=
 | OPlGet (tok : bytes)        (* M3u8(tok): keep the returned slice *)
 | OPlRead (h : Z)             (* look at the h-th kept slice again *)
 | OClose
-| OSetPs (sps pps : bytes).   (* the stream's SPS/PPS become known / change: vm.Sps, vm.Pps assigned *)
+| OSetPs (sps pps : bytes)    (* the stream's SPS/PPS become known / change: vm.Sps, vm.Pps assigned *)
+| ONewGen (lf : list (Z * bytes)).
+  (* a new generation of the stream: the running generator/playlist is abandoned as it is (a history that wants a
+     clean end puts OClose first), files [lf] (number, content) appear in the storage directory (whatever an
+     earlier run under the same path left behind), then NewPlaylist + NewSegmentGenerator for the same path *)
 
 (* what a segment read yields, at the frame level: the harness demultiplexes the bytes *)
 Record segobs := { g_ok : bool;           (* well-formed TS, advertised size = bytes read, re-muxing the frames gives the same bytes *)
@@ -427,7 +445,8 @@ Definition strip (w : wframe) : wframe :=
 Definition obs_of_frames (fs : list wframe) : segobs := {| g_ok := true; g_frames := map strip fs |}.
 
 (* run state: generator/playlist, kept readers, kept playlist slices, default token *)
-Record rst := { r_st : st; r_readers : list reader; r_pls : list bytes; r_prev : list Z }.
+Record rst := { r_st : st; r_readers : list reader; r_pls : list bytes; r_prev : list Z;
+                r_left : list Z  (* disk mode: numbers of the files in the directory when this generation began *) }.
 
 Fixpoint insert_sorted (x : Z) (l : list Z) : list Z :=
   match l with [] => [x] | y :: t => if x <=? y then x :: l else y :: insert_sorted x t end.
@@ -438,6 +457,15 @@ Definition live_seqs (s : st) : list Z := map s_seq (pl s).
 Definition file_seqs (c : cfg) (s : st) : list Z :=
   if c_mem c then [] else
   sort_z (live_seqs s ++ match cur s with Some g => [s_seq g] | None => [] end).
+
+(* the directory: this generation's own files plus what was there before and has not been reached yet.  A
+   generation opens the numbers 1, 2, ... [seqno] (opening truncates or creates; what it opened it later deletes
+   itself), so an earlier file survives exactly while its number is above [seqno] *)
+Definition dedup_z (l : list Z) : list Z := fold_right (fun x acc => if mem_z x acc then acc else x :: acc) [] l.
+Definition dir_seqs (c : cfg) (lf : list Z) (s : st) : list Z :=
+  if c_mem c then [] else
+  sort_z (live_seqs s ++ match cur s with Some g => [s_seq g] | None => [] end) ++
+  filter (fun n => seqno s <? n) lf.
 
 Definition nth_z {A} (l : list A) (h : Z) : option A := if h <? 0 then None else nth_error l (Z.to_nat h).
 
@@ -466,13 +494,19 @@ Definition step (c : cfg) (dtok : bytes) (r : rst) (o : op) : rst * sobs :=
     | OPlRead h => (r_st r, r_readers r, r_pls r, RPlRead (nth_z (r_pls r) h))
     | OClose => (close_all (r_st r), r_readers r, r_pls r, RNone)
     | OSetPs _ _ => (r_st r, r_readers r, r_pls r, RNone)
+    | ONewGen _ => (init c, [], r_pls r, RNone)
     end in
   let live := live_seqs s' in
   let newsegs := filter (fun g => negb (mem_z (s_seq g) (r_prev r))) (pl s') in
-  ({| r_st := s'; r_readers := readers'; r_pls := pls'; r_prev := live |},
+  let left' := match o with
+               | ONewGen lf => if c_mem c then [] else
+                                 sort_z (dedup_z (dir_seqs c (r_left r) (r_st r) ++ map fst lf))
+               | _ => r_left r
+               end in
+  ({| r_st := s'; r_readers := readers'; r_pls := pls'; r_prev := live; r_left := left' |},
    {| o_pl := match m3u8 c dtok s' with Some v => Some (v, render v) | None => None end;
       o_live := live;
-      o_files := file_seqs c s';
+      o_files := dir_seqs c left' s';
       o_new := map (fun g => (s_seq g, obs_of_frames (s_frames g))) newsegs;
       o_res := res |}).
 
@@ -486,7 +520,7 @@ Fixpoint run_from (c : cfg) (dtok : bytes) (r : rst) (ops : list op) : list (cfg
   | o :: t => let '(r', ob) := step c dtok r o in (c, (r', ob)) :: run_from (step_cfg c o) dtok r' t
   end.
 
-Definition rinit (c : cfg) : rst := {| r_st := init c; r_readers := []; r_pls := []; r_prev := [] |}.
+Definition rinit (c : cfg) : rst := {| r_st := init c; r_readers := []; r_pls := []; r_prev := []; r_left := [] |}.
 Definition run (c : cfg) (dtok : bytes) (ops : list op) : list (cfg * (rst * sobs)) := run_from c dtok (rinit c) ops.
 Definition model (c : cfg) (dtok : bytes) (ops : list op) : list sobs := map (fun x => snd (snd x)) (run c dtok ops).
 
@@ -578,7 +612,7 @@ Definition ok_step (c : cfg) (dtok : bytes) (strict : bool) (m : rst * sobs) (o 
   && list_eqb Z.eqb (o_live o) (o_live mo)
   && (length (o_live o) <=? WINDOW)%nat
   && list_eqb Z.eqb (o_files o) (o_files mo)
-  && (length (o_files o) <=? WINDOW + 1)%nat
+  && (length (o_files o) <=? WINDOW + 1 + length (r_left (fst m)))%nat
   (* every segment is the transport stream of exactly the frames written for its number *)
   && list_eqb newseg_eqb (o_new o) (o_new mo)
   && forallb (fun x => g_ok (snd x)) (o_new o)
